@@ -55,6 +55,19 @@ func init() {
 			s, p := a[0].T, a[1].T
 			return Val{T: f.u.defs.Define("trims", Ite(App("str.suffixof", SBool, p, s), App("str.substr", SString, s, IntLit(0), App("-", SInt, App("str.len", SInt, s), App("str.len", SInt, p))), s))}
 		},
+		"math.Round": func(f *Frame, c *ssa.CallCommon, a []Val, st *State) Val {
+			x := a[0].T
+			half := Term{"0.5", SReal}
+			pos := App("to_real", SReal, App("to_int", SInt, App("+", SReal, x, half)))
+			neg := App("-", SReal, App("to_real", SReal, App("to_int", SInt, App("+", SReal, App("-", SReal, x), half))))
+			return Val{T: f.u.defs.Define("round", Ite(App(">=", SBool, x, Term{"0.0", SReal}), pos, neg))}
+		},
+		"math.Max": func(f *Frame, c *ssa.CallCommon, a []Val, st *State) Val {
+			return Val{T: f.u.defs.Define("fmax", Ite(App(">=", SBool, a[0].T, a[1].T), a[0].T, a[1].T))}
+		},
+		"math.Min": func(f *Frame, c *ssa.CallCommon, a []Val, st *State) Val {
+			return Val{T: f.u.defs.Define("fmin", Ite(App("<=", SBool, a[0].T, a[1].T), a[0].T, a[1].T))}
+		},
 		"strconv.Itoa": func(f *Frame, c *ssa.CallCommon, a []Val, st *State) Val {
 			return Val{T: App("itoa", SString, a[0].T)}
 		},
